@@ -9,7 +9,7 @@ def key(f):
     return (prop, rnd, int(rest.split('.')[-1]))
 
 rows = []
-n = det = late = 0
+n = det = late = nj = 0
 for f in sorted(glob.glob('/verif/seeded/*/meta.json'), key=key):
     m = json.load(open(f))
     notes_p = os.path.join(os.path.dirname(f), 'notes.md')
@@ -26,10 +26,11 @@ for f in sorted(glob.glob('/verif/seeded/*/meta.json'), key=key):
         h = m['history']
         hist = ' — at first ' + h.split('caught after')[0].strip().rstrip(';').replace('missed at first', 'missed').replace('harness error at first', 'a harness error') + '; caught after ' + h.split('caught after', 1)[1].strip() if 'caught after' in h else ' — ' + h
     notj = m.get('history', '').startswith('NOT judged')
+    nj += bool(notj and r['rc'] != 1)
     label = 'detected' if r['rc'] == 1 else ('not judged' if notj else 'MISSED')
     rows.append(f"| {m['id']} | {title} | {label}: `{keys}`{hist.replace('|', '/')} |")
 tbl = (f"{n} seeded changes, {det} detected by the check of their own property ({late} carry a note: caught only after the check was "
-       f"strengthened, or strengthened on reading the sub-agent's report before the first evaluation), {n - det} not judged by decision.\n\n"
+       f"strengthened, or strengthened on reading the sub-agent's report before the first evaluation), {nj} not judged by decision, {n - det - nj} missed and left open (round 6; see the bullets above the table).\n\n"
        "| seeded id | change (sub-agent's title) | check of that property |\n|---|---|---|\n" + "\n".join(rows) + "\n")
 p = '/verif/DESIGN.md'
 s = open(p).read()
